@@ -156,7 +156,29 @@ Fixpoint run_ops (s : src) (ops : list op) : option (list (option Z)) :=
                     end ;;
       rest <- run_ops s' r ;; Some (res :: rest)
   end.
+(* the same, also returning the final state (to observe how much of each leaf was consumed) *)
+Fixpoint run_ops_state (s : src) (ops : list op) : option (list (option Z) * src) :=
+  match ops with
+  | [] => Some ([], s)
+  | o :: r =>
+      '(res, s') <- match o with
+                    | OPull => pull (height s) s
+                    | OPeek => peek (height s) s
+                    | OCached => c <- cached s ;; Some (c, s)
+                    end ;;
+      '(rest, sf) <- run_ops_state s' r ;; Some (res :: rest, sf)
+  end.
 End Pull.
+
+(* remaining items of every list leaf, in expression order *)
+Fixpoint leaf_lens (s : src) : list nat :=
+  match s with
+  | FromList l => [length l]
+  | Chain f b _ => leaf_lens f ++ leaf_lens b
+  | Cycle o c => leaf_lens o ++ leaf_lens c
+  | Take i _ | Skip i _ | Peek i _ | Cache i _ | RoundTrip i | PadConst i _ _ _ _ | PadEdge i _ _ => leaf_lens i
+  | Constant _ | Repeat _ _ | Increment _ _ => []
+  end.
 
 (* ---- expressions as a user writes them, and their initial run-time state ---- *)
 Inductive expr :=
